@@ -162,6 +162,10 @@ func isValidBits(x int) bool {
 }
 
 func bitsFromASCII(p []byte) (WindowBits, bool) {
+	if len(p) > 1 && p[0] == '0' {
+		// RFC7692: a decimal integer value without leading zeroes.
+		return 0, false
+	}
 	n, ok := httphead.IntFromASCII(p)
 	if !ok || !isValidBits(n) {
 		return 0, false
